@@ -41,8 +41,11 @@ StoryNT(x) == Nd("story", x, None,
                     ItemN("I1", x, "-nt"), ParaN(x, 1) >>)
 (* a bare story: storyID and one item only - no slug, no timing           *)
 StoryBare(x, v) == Nd("story", x, None, << Leaf("storyID", x, "="), ItemN("I1", x, v) >>)
-(* a story element that carries attributes of its own                     *)
-StoryAttr(x) == [StoryN(x, "") EXCEPT !.tok = "a:" \o x]
+(* unusual but legal story markup: the element carries attributes of its  *)
+(* own, and a second <storyID> child follows the items (the first one is  *)
+(* the story's id)                                                        *)
+StoryAttr(x) == [StoryN(x, "") EXCEPT !.tok = "a:" \o x,
+                                      !.kids = @ \o <<Leaf("storyID", "second." \o x, "=")>>]
 (* a story whose storyID tag is blank                                      *)
 StoryBlank == Nd("story", None, None,
                  StoryHdr(None, "") \o << ItemN("I1", "SB", ""), ParaN("SB", 1) >>)
